@@ -1154,6 +1154,25 @@ pub fn withdraw_behaviour(r: &mut Rng, t: &mut Trace) {
     }
 }
 
+// ---------------------------------------------------------------------------------------------
+// kf1 driver: the known finding KF-1 at system level (x = y >= 10^18, offer 1: x*y mod (x+1) = 1)
+// ---------------------------------------------------------------------------------------------
+pub fn kf1_behaviour(r: &mut Rng, t: &mut Trace) {
+    let (setup, _) = std_setup_with(r, 1u128 << 100, false, true);
+    let mut w = World::build(&setup);
+    t.reset(&w, &setup);
+    for i in 0..w.pairs.len() {
+        let x = (2 + r.below(7) as u128) * D18 + r.below128(D18);
+        let op = op_provide(&w, i, "alice", x, x, nul(), nul());
+        t.run(&mut w, op);
+        let (a0, a1) = pair_infos(&w, i);
+        // the reserves are equal only until the first swap: one unit each way on a fresh x = y pool
+        let op = op_swap(&w, i, "carol", &a0, 1, nul(), nul(), nul());
+        t.run(&mut w, op);
+        let _ = a1;
+    }
+}
+
 pub fn run(driver: &str, seed: u64, behaviours: usize, steps: usize, out: &mut dyn Write) -> usize {
     let mut total = 0;
     for b in 0..behaviours {
@@ -1163,6 +1182,7 @@ pub fn run(driver: &str, seed: u64, behaviours: usize, steps: usize, out: &mut d
             "random" => random_behaviour(&mut r, &mut t, steps),
             "matrix" => matrix_behaviour(&mut r, &mut t),
             "routes" => routes_behaviour(&mut r, &mut t),
+            "kf1" => kf1_behaviour(&mut r, &mut t),
             "registry" => registry_behaviour(&mut r, &mut t, steps.max(1), b),
             "withdraw" => withdraw_behaviour(&mut r, &mut t),
             other => panic!("unknown driver {}", other),
